@@ -124,6 +124,10 @@ def _macro_edits(sf: SourceFile, lo_tok: int, hi_tok: int) -> List[Tuple[int, in
                 edits.append((t.start, toks[close].end, rep, 'R5:%s!' % name))
                 i = close + 1
                 continue
+        # rule R14: fully qualified std paths -> the shim module vp_std
+        if t.kind == 'ident' and t.text == 'std' and toks[i + 1].text == '::' and toks[i + 2].text in ('fs', 'io', 'env') \
+                and (i == 0 or toks[i - 1].text != '::'):
+            edits.append((t.start, t.end, 'vp_std', 'R14:std::%s' % toks[i + 2].text))
         i += 1
     return edits
 
@@ -483,7 +487,14 @@ def extract_fn(unit: str, file: str, item: str, mode: str, contracts, canary: bo
             whole = sf.text[it.start:it.end]
             for p in _find_nth(whole, rp.old, rp.nth, fn_label):
                 a = it.start + p
-                edits.append((a, a + len(rp.old), rp.new, rw(rp.rule)))
+                org_r = rw(rp.rule)
+                n_as = len(re.findall(r'\bassert\s*\(', rp.new))
+                if n_as:
+                    # a rewrite that carries a proof assertion is an obligation like an @insert block
+                    org_r = {'kind': 'insert', 'fn': fn_label, 'vc': '%s:%d' % (c.vc_file, rp.vc_line), 'tags': c.serves, 'rule': rp.rule}
+                    info.n_asserts += n_as
+                    info.proof_blocks.append(('%s:%d' % (c.vc_file, rp.vc_line), n_as))
+                edits.append((a, a + len(rp.old), rp.new, org_r))
                 info.rewrites.append('%s:%r' % (rp.rule, rp.old[:30]))
 
     if body_start_ins:
@@ -491,6 +502,13 @@ def extract_fn(unit: str, file: str, item: str, mode: str, contracts, canary: bo
     if sig_segs:
         edits.append((body_open.start, body_open.start, ('SEGS', sig_segs), {'kind': 'glue'}))
 
+    # automatic rewrites (R5 macros, R14 std paths) yield to explicit @replace ranges that cover them
+    manual = [(s_, e_) for (s_, e_, r_, o_) in edits if isinstance(o_, dict) and o_.get('kind') in ('rewrite', 'insert')
+              and not str(o_.get('rule', '')).startswith(('R5:', 'R14:', 'A', 'R1', 'R8')) and e_ > s_]
+    def _covered(s_, e_):
+        return any(ms <= s_ and e_ <= me for (ms, me) in manual)
+    edits = [(s_, e_, r_, o_) for (s_, e_, r_, o_) in edits
+             if not (isinstance(o_, dict) and str(o_.get('rule', '')).startswith(('R5:', 'R14:')) and _covered(s_, e_))]
     # apply: stable sort by (start, order of insertion)
     norm = []
     for idx, (s, e, r, o) in enumerate(edits):
